@@ -179,6 +179,9 @@ func (n *nodeSim) onSendInvoked(rec *sendRec) {
 		}
 	}
 	n.checkSprayChoice(tr, rec)
+	if n.algo == "prophet" {
+		n.prophetChoice(tr, rec)
+	}
 }
 
 func (tr *btrack) absentSince(epoch int) bool { return tr.absentEpoch > epoch }
